@@ -2,14 +2,15 @@ SPECIFICATION Spec
 CONSTANTS
   Params <- ParamsUnit
   MaxRound = 4
-  Horizon = 6
-  MaxNow = 9
+  Horizon = 5
+  MaxNow = 8
   Sched = "any"
   Weakens = {"none"}
   Parts = {"timer", "ctl"}
   Heights = {0, 1, 2}
   MaxCRound = 3
   Cutoff = 3
+  InstCap = 2
 INVARIANT TypeOK
 INVARIANT OncePerArming
 INVARIANT OnlyLatest
